@@ -26,7 +26,7 @@ def run_config(chk, tier, cfgname):
         typestate.apply(chk, "colour-moves:" + t, t, aspects=("safety",))
     n = common.confined(chk, prog, "set_color-confined", "gc_ptr::GcHeader::set_color", TABLE_ENTRIES,
                         "colour written outside the analysed primitives")
-    chk.floor("set_color-sites", n, 6)
+    chk.floor("set_color-sites", n, 3)
     common.protocol_rows(chk, prog, "finish_cycle-whole-cycles", ["finish_cycle"], aspects=("cycle", "safety"))
     typestate.report_automaton(chk, ["S3", "S3r", "S2"])
     # shell clause as typestate paths
